@@ -3,6 +3,7 @@ void registerXPath();
 void registerTransform();
 void registerSerialize();
 void registerNodeList();
+void registerLowLevel();
 void registerAll()
 {
     registerNum();
@@ -10,4 +11,5 @@ void registerAll()
     registerTransform();
     registerSerialize();
     registerNodeList();
+    registerLowLevel();
 }
